@@ -9,6 +9,8 @@ namespace Range
 /-- No column of the range is inverted (lower bound above upper bound). -/
 def NonInv (r : Range) : Prop := ∀ c ∈ r, ColRange.NonInv c
 
+instance (r : Range) : Decidable (NonInv r) := by unfold NonInv; exact inferInstance
+
 /-- Membership with column `i` left out. -/
 def memExcept : Range → Nat → Tuple → Bool
   | _ :: cs, 0, _ :: vs => mem cs vs
